@@ -423,3 +423,42 @@ func importRules(w *World, r *Recorder, from func(*World, *Recorder) propInfo, n
 		r.Undecide(newRule, "imported", "-", "no obligation of the presupposed property was produced")
 	}
 }
+
+// ruleNoReflectAssign: the embedding-aware helpers give a destination field
+// its value only by handing the field's address to the decoder; they never
+// assign through the reflect handle themselves (Set*, SetZero, Grow, Clear,
+// reflect.Copy). A value built that way — a typed nil pointer inside an
+// interface, a freshly allocated embedded struct — bypasses what the decoder
+// guarantees about the destination (C05: later value-receiver calls through a
+// nil pointer), writes objects the serialisers only read (C17/C18) and can
+// change which fields are present (C15).
+func ruleNoReflectAssign(w *World, r *Recorder, rule string) {
+	n := 0
+	for _, fn := range w.Funcs {
+		if fnPkg(fn) != w.Enc {
+			continue
+		}
+		for _, b := range fn.Blocks {
+			for _, in := range b.Instrs {
+				ci, ok := in.(ssa.CallInstruction)
+				if !ok {
+					continue
+				}
+				f := ci.Common().StaticCallee()
+				if f == nil || f.Pkg == nil || f.Pkg.Pkg.Path() != "reflect" {
+					continue
+				}
+				name := f.Name()
+				mut := strings.HasPrefix(name, "Set") || name == "Grow" || name == "Clear" || name == "Copy" || name == "Swapper"
+				if !mut {
+					continue
+				}
+				n++
+				r.Refute(rule, fnKey(fn)+"#reflect."+name, w.InstrPos(in), "the encoding helper assigns through a reflect handle ("+f.String()+"): destination fields must get their values from the decoder only")
+			}
+		}
+	}
+	if n == 0 {
+		r.Prove(rule, "encoding#no-reflect-assign", "-", "no reflect.Value mutator (Set*, Grow, Clear, Copy) is called anywhere in the encoding package", false)
+	}
+}
